@@ -548,6 +548,9 @@ def step (cfg : Cfg) (s : State) : Label → Option State
         if s.st (.root r) = .running ∧ how = .cancelled ∧ s.creq (.root r) = true then some fin
         else if s.st (.root r) = .running ∧ how = .failed ∧ cfg.coreWatched = true ∧ s.core = .failed then
           some { fin with tFail := s.tFail, failWho := s.failWho }
+        -- a core task that was stopped (a failed startup stops the core tasks before any root task has ended) ends the
+        -- wait as well: the watcher returns normally — a root task is over, `run_tasks` stops the rest
+        else if s.st (.root r) = .running ∧ how = .done ∧ cfg.coreWatched = true ∧ s.core = .cancelled then some fin
         else none
       | .simple =>
         if (s.st (.root r) = .waitingFlag ∨ s.st (.root r) = .running) ∧ how = .cancelled ∧ s.creq (.root r) = true then
